@@ -24,6 +24,11 @@ func (fx *fnExec) execInstr(in ssa.Instruction) {
 			ad = fx.derefAd(fx.val(x.Addr), x.Addr.Type(), where)
 		}
 		v := fx.val(x.Val)
+		fx.prevStored = nil
+		if ad.Cell == nil && fx.ctr != nil && len(fx.ctr.Hooks) > 0 {
+			// value overwritten by a store into the heap: `previous` in store hooks
+			fx.prevStored = fx.load(ad)
+		}
 		fx.store(ad, v)
 		fx.runStoreHooks(x, ad, where)
 	case *ssa.UnOp:
